@@ -4,7 +4,7 @@
     of Alg. 5, pad10*1 with the SHAKE suffix, the sponge; [S_shake rate M d] is the first d bytes of
     SHAKE(M) for rate 136 (SHAKE256) or 168 (SHAKE128). [src_keccak_round2] and [src_RC] are the translator's
     reading of the current source (Gen.v). *)
-From DV Require Import Base Gen MKeccak SKeccak PKeccak.
+From DV Require Import Base Gen MKeccak SKeccak PKeccak PKeccakIn.
 
 (** the source's unrolled two-round body is two FIPS 202 rounds, for all lane values and any lane algebra *)
 Theorem C12_round_body_is_fips202 :
@@ -49,6 +49,17 @@ Theorem C12_oneshot : forall (inp : list Z) (n : Z), Forall is_byte inp -> 0 <= 
   shake256 (repeatZ 0 n) n inp (zlen inp) = Ok (S_shake 136 inp (Z.to_nat n)).
 Proof. exact shake256_ok. Qed.
 Print Assumptions C12_oneshot.
+
+(** ... and they read exactly [inlen] bytes of the caller's input slice, whatever follows them *)
+Theorem C12_oneshot_reads_only_inlen : forall (inp x : list Z) (n : Z), Forall is_byte inp -> 0 <= n < 2 ^ 64 ->
+  shake256 (repeatZ 0 n) n (inp ++ x) (zlen inp) = Ok (S_shake 136 inp (Z.to_nat n)).
+Proof. exact shake256_reads_only_inlen. Qed.
+Print Assumptions C12_oneshot_reads_only_inlen.
+
+Theorem C12_absorb_reads_only_inlen : forall (st : kstate) (r : Z) (inp x : list Z),
+  keccak_absorb st r (inp ++ x) (zlen inp) = keccak_absorb st r inp (zlen inp).
+Proof. exact absorb_reads_only_inlen. Qed.
+Print Assumptions C12_absorb_reads_only_inlen.
 
 Theorem C12_absorb_once : forall (rate : nat) (inp : list Z), rate_ok rate -> Forall is_byte inp ->
   keccak_absorb_once (Z.of_nat rate) inp (zlen inp) =
